@@ -21,6 +21,7 @@ EXPLANATION = (
     "profile, tiebreak) whose prefix goes to elected= and suffix to remaining=; validate_score_vector "
     "polarity. Does NOT decide numeric equality of the totals on all inputs."
 )
+EXPLANATION += ' Also decided (prerequisites and later clauses): mention totals start at an exact zero for every candidate of the profile.'
 ASSUMPTIONS = ["sorted() is stable ascending, reverse=True gives descending (trusted)",
                "Ballot.weight is a Fraction (C11.R2)"]
 TRUSTED = ["sorted", "fractions.Fraction", "sum"]
